@@ -52,11 +52,17 @@ void h_panel_bmod(void) {
   if (in_w == W && in_m == M) __CPROVER_assert(0, "canary: full capacity m = M, w = W");
 #endif
 #if BUSYCAN
+  /* canaries of the busy phase; those that need a busy range of 2 / 3 columns only where the variant admits one (NBUSY) */
+#if NBUSY >= 2
   if (nb >= 2) __CPROVER_assert(0, "canary: two busy supernodes on the path");
   if (g_k.awaits >= 2) __CPROVER_assert(0, "canary: waited twice");
-  if (nb >= 1 && g_k.awaits == 0) __CPROVER_assert(0, "canary: busy range already finished, no wait");
   if (nb >= 1 && g_busy_krep[0] > in_bcol) __CPROVER_assert(0, "canary: busy supernode with several columns");
+#endif
+#if NBUSY >= 3
   if (nb == 1 && g_busy_krep[0] >= in_bcol + 2 && g_onch[in_bcol + 1] == 0) __CPROVER_assert(0, "canary: busy supernode that is not an etree path (relaxed)");
+#endif
+  if (nb >= 1 && g_k.awaits >= 1) __CPROVER_assert(0, "canary: waited for a busy column");
+  if (nb >= 1 && g_k.awaits == 0) __CPROVER_assert(0, "canary: busy range already finished, no wait");
   if (nb >= 1 && g_is_busy_krep[g_x] == 1 && RF(g_c, g_x) != g_rep0) __CPROVER_assert(0, "canary: leading nonzero of a busy segment found");
   if (nb >= 1 && in_w_lsub_end[g_c] > g_wend0) __CPROVER_assert(0, "canary: new fill rows appended to panel_lsub");
   if (nb >= 1 && in_nseg0 >= 1) __CPROVER_assert(0, "canary: finished and busy supernodes in one call");
